@@ -171,6 +171,66 @@ def run_circuit(ctx, case):
     compare_grads(ctx, got, want, 'circuit gradient = finite differences of the forward value')
     ctx.tick(sum(p.numel() for p in params))
 
+    def lossf(q):
+        a = torch.vdot(tvec, q)
+        return (a * a.conj()).real if case['loss'] == 'abs2' else a.real
+
+    def set_p(ct, Pd):
+        if Pd:
+            kw = {k_: v for k_, v in Pd.items() if k_ != ''}
+            if '' in Pd:
+                ct.setP(Pd[''], **kw)
+            else:
+                ct.setP(**kw)
+    gate_params = [p for p in model.parameters() if p.requires_grad]
+    # (A) the same wrapper evaluated for two data points (placeholders = data) before ONE backward pass
+    if P and data_P and gate_params and case['prng'] % 2 == 0:
+        P2 = {k_: v + 0.41 for k_, v in P.items()}
+
+        def f2():
+            set_p(model.ct, P)
+            q1 = model.ct(torch.complex(s_re, s_im))
+            set_p(model.ct, P2)
+            q2 = model.ct(torch.complex(s_re, s_im))
+            return lossf(q1) + 0.7 * lossf(q2)
+        for p_ in params:
+            p_.grad = None
+        f2().backward()
+        got2 = [None if p_.grad is None else p_.grad.detach().numpy().copy() for p_ in params]
+        compare_grads(ctx, got2, fd_grad(f2, params), 'two forward passes with different placeholder data before one backward: gradient = finite differences')
+        ctx.label('two passes, one backward')
+    # (B) two circuits applied to the same input and added: autograd hands ONE gradient tensor to both branches
+    if case['prng'] % 4 == 1 and 'custom-forward' not in sig:
+        import copy
+        case2 = copy.deepcopy({k_: v for k_, v in case.items()})
+
+        def bump(ops):
+            for o in ops:
+                if o['op'] == 'sub':
+                    bump(o['ops'])
+                elif 'args' in o:
+                    o['args'] = [x + 0.23 for x in o['args']]
+        bump(case2['ops'])
+        circ2, _, n2, _, Pvals2 = c03.build(case2, requires_grad=True)
+        if n2 == n:
+            ct2 = nq.sim.CircuitTorchWrapper(circ2)
+            Pd2 = {k_: torch.tensor(np.array(v, dtype=np.float64)) for k_, v in Pvals2.items()}
+            params2 = [p_ for p_ in ct2.parameters() if p_.requires_grad]
+
+            def f3():
+                set_p(model.ct, P)
+                set_p(ct2, Pd2)
+                s_ = torch.complex(s_re, s_im)
+                return lossf(model.ct(s_) + ct2(s_))
+            allp = params + params2
+            if allp:
+                for p_ in allp:
+                    p_.grad = None
+                f3().backward()
+                got3 = [None if p_.grad is None else p_.grad.detach().numpy().copy() for p_ in allp]
+                compare_grads(ctx, got3, fd_grad(f3, allp), 'sum of two circuits on the same input (shared output gradient): gradient = finite differences')
+                ctx.label('two branches')
+
 
 # --------------------------------------------------------------------------------------------- Knill-Laflamme inner product
 @st.composite
